@@ -357,18 +357,20 @@ pub struct GenCfg {
     pub creates: bool,
     /// bias call templates towards STATICCALL (C10)
     pub static_bias: bool,
+    /// weight of call templates among statements (generic ops have 14)
+    pub call_weight: u32,
 }
 
 impl Default for GenCfg {
     fn default() -> Self {
-        GenCfg { callees: (0..pool::N_FIXED).collect(), extra_addrs: vec![], max_stmts: 8, depth: 2, creates: true, static_bias: false }
+        GenCfg { callees: (pool::IDX_CONTRACT0..pool::IDX_CONTRACT0 + 5).collect(), extra_addrs: vec![], max_stmts: 8, depth: 2, creates: true, static_bias: false, call_weight: 6 }
     }
 }
 
 pub fn mem_off() -> BoxedStrategy<Arg> {
     prop_oneof![
-        12 => prop::sample::select(vec![0u64, 1, 31, 32, 33, 64, 96, 128, 255, 256, 320]).prop_map(Arg::N),
-        3 => (0u64..400).prop_map(Arg::N),
+        36 => prop::sample::select(vec![0u64, 1, 31, 32, 33, 64, 96, 128, 255, 256, 320]).prop_map(Arg::N),
+        8 => (0u64..400).prop_map(Arg::N),
         1 => prop::sample::select(vec![1u64 << 16, 1 << 24, (1 << 32) - 1, 1 << 32, u64::MAX - 31, u64::MAX]).prop_map(Arg::N),
         1 => prop::sample::select(vec![U256::from(1u128 << 64), U256::one() << 255, U256::MAX]).prop_map(Arg::W),
     ]
@@ -377,8 +379,8 @@ pub fn mem_off() -> BoxedStrategy<Arg> {
 
 pub fn len_arg() -> BoxedStrategy<Arg> {
     prop_oneof![
-        12 => prop::sample::select(vec![0u64, 1, 2, 31, 32, 33, 64, 65, 100]).prop_map(Arg::N),
-        2 => (0u64..200).prop_map(Arg::N),
+        36 => prop::sample::select(vec![0u64, 1, 2, 31, 32, 33, 64, 65, 100]).prop_map(Arg::N),
+        6 => (0u64..200).prop_map(Arg::N),
         1 => prop::sample::select(vec![1u64 << 16, 1 << 20, (1 << 32) - 1, 1 << 32, u64::MAX]).prop_map(Arg::N),
         1 => prop::sample::select(vec![U256::from(1u128 << 64), U256::one() << 255, U256::MAX]).prop_map(Arg::W),
     ]
@@ -563,7 +565,7 @@ fn create_stmt(cfg: &GenCfg, depth: u32) -> BoxedStrategy<Stmt> {
 pub fn stmt(cfg: &GenCfg, depth: u32) -> BoxedStrategy<Stmt> {
     let mut v: Vec<(u32, BoxedStrategy<Stmt>)> = vec![
         (14, generic_op(cfg)),
-        (6, call_stmt(cfg)),
+        (cfg.call_weight, call_stmt(cfg)),
         (2, raw_bytes().prop_map(Stmt::Raw).boxed()),
         (1, (prop_oneof![(0u64..700).prop_map(Arg::N), val_arg()], prop::option::of(val_arg())).prop_map(|(target, cond)| Stmt::BadJump { target, cond }).boxed()),
         (1, term(cfg).prop_map(Stmt::Term).boxed()),
